@@ -309,4 +309,56 @@ theorem ninv_step (t : NTable) (hwf : nwf t = true) (s : State) (op : Op) (h : N
     · simp only [hlt, if_false]
       exact ⟨h, by simp⟩
 
+/-! ### calls that raise (round 4) -/
+
+theorem sameFields_trans {s1 s2 s3 : State} (h1 : SameFields s1 s2) (h2 : SameFields s2 s3) :
+    SameFields s1 s3 :=
+  ⟨by rw [h2.1, h1.1], by rw [h2.2.1, h1.2.1], by rw [h2.2.2, h1.2.2]⟩
+
+theorem nabort_inv (t : NTable) : ∀ fuel s mi a path, mi < fuel → NInv t s →
+    NInv t (nabort t fuel s mi a path) ∧ SameFields s (nabort t fuel s mi a path) := by
+  intro fuel
+  induction fuel with
+  | zero => intro s mi a path h; omega
+  | succ f ih =>
+    intro s mi a path hfuel hinv
+    cases path with
+    | nil => exact ⟨by simpa [nabort] using hinv, by simp [nabort, SameFields]⟩
+    | cons k rest =>
+      simp only [nabort]
+      cases hm : t.methods[mi]? with
+      | none => exact ⟨hinv, rfl, rfl, rfl⟩
+      | some m =>
+        simp only
+        cases hf : findEntry s.cache mi a (m.keyOf s) with
+        | some e => exact ⟨hinv, rfl, rfl, rfl⟩
+        | none =>
+          simp only
+          have hq : ∀ s' n c, n < mi → NInv t s' →
+              QPost t s' n c ((fun s' n c => nquery t f s' n c) s' n c) :=
+            fun s' n c hn hi => nquery_post t f s' n c (by omega) hi
+          obtain ⟨hi, hsf, -⟩ := ncalls_post t _ mi s.stamp mi (Nat.le_refl _) hq
+            ((m.bodyOf a).calls.take k) s hinv rfl
+          cases rest with
+          | nil => exact ⟨hi, hsf⟩
+          | cons k' rest' =>
+            cases hc : (m.bodyOf a).calls[k]? with
+            | none => exact ⟨hi, hsf⟩
+            | some nc =>
+              simp only
+              by_cases hlt : nc.1 < mi
+              · simp only [hlt, if_true]
+                obtain ⟨h1, h2⟩ := ih _ nc.1 nc.2 (k' :: rest') (by omega) hi
+                exact ⟨h1, sameFields_trans hsf h2⟩
+              · simp only [hlt, if_false]
+                exact ⟨hi, hsf⟩
+
+theorem xinv_step (t : NTable) (hwf : nwf t = true) (s : State) (op : XOp) (h : NInv t s) :
+    NInv t (xstep t s op).1 ∧ (∀ r c, (xstep t s op).2 = some (r, c) → r = c) := by
+  cases op with
+  | op o => exact ninv_step t hwf s o h
+  | raises mi a path =>
+    exact ⟨(nabort_inv t (mi + 1) s mi a path (Nat.lt_succ_self _) h).1, fun r c hrc => by
+      simp [xstep] at hrc⟩
+
 end Pyunicorn.Memo
